@@ -71,8 +71,9 @@ CASE_TIMEOUT = 20
 TRUSTED = [
     "Lean 4.33.0 kernel; axioms limited to propext, Classical.choice, Quot.sound (audited by #print axioms on every run)",
     "hand transcription of LenaSequence.__init__/_set_context/_get_context, LenaSplit._set_context/_get_context, "
-    "Source.__init__, SetContext, StoreContext, UpdateContextFromStatic, the _set_context of MakeFilename/Write/Cache, "
-    "MakeFilename.__call__, Sequence.run/Split.run(bufsize=None) and of update_recursively, intersection(level=-1), "
+    "Source.__init__ (FillComputeSeq / FillRequestSeq: the same LenaSequence protocol since e3ec49d), SetContext, "
+    "StoreContext, UpdateContextFromStatic, the _set_context of MakeFilename/Write/Cache, MakeFilename.__call__ (all "
+    "five methods, overwrite), Sequence.run/Split.run(bufsize=None) and of update_recursively, intersection(level=-1), "
     "str_to_dict, get_recursively, format_context (parsed templates) into LenaModel/Model/C13.lean, validated by this "
     "correspondence check (state of every object after construction, exported contexts, LenaKeyError keys, run-time flow)",
     "the harness's independent Python prefix fold (Ref), compared with the model's specification fold on every case",
@@ -90,21 +91,31 @@ ASSUMPTIONS = [
     "run-time elements that update a value's context in place are represented by UpdateContextFromStatic, MakeFilename "
     "and a user mutator element (update_recursively(context, key, value)); the oracle requires the state of every "
     "element after the run to equal its state before the run",
+    "FillComputeSeq / FillRequestSeq nodes, tuple branches that Split turns into them and bare fill/compute elements are "
+    "modelled for static context only (as LenaSequences / as elements without static context); no flow is run through "
+    "trees that contain them (fill/compute/request scheduling is C03/C05/C16)",
+    "Cache hoisting (Cache.alter_sequence builds a temporary Source over the flattened elements after an existing cache, "
+    "which lena.core.meta.alter_sequence then discards) is checked by the oracle on trees constructed a second time with "
+    "the cache files present; the temporary pass is not modelled (redelivery_idempotent covers re-propagation of the "
+    "same context)",
     "Split is built with bufsize=None (the whole flow is one buffer), Cache with recompute=True and at most one Cache in a "
     "tree whose flow is run (an existing cache file would replace the flow: C18), flow data are ints (Write passes them on)",
 ]
-RULE = ("quick: all trees with <= 2 leaves over 10 leaf kinds (SetContext constant / formatting / nested key, StoreContext, "
-        "UpdateContextFromStatic, MakeFilename, Write, Cache, plain element), depth <= 2, Sequence and Source tops; a seeded "
-        "sample of 6000 trees with 3 leaves over 7 leaf kinds; 4000 seeded random trees of depth <= 3 (Sequence / "
-        "Source / tuple branches, 0-3 Split branches, 6 keys, 7 formatting fields incl. unresolvable ones) each with two "
-        "causality variants (everything after a probe / sibling branches replaced) and a run-time flow out of 7 (1-3 values); "
-        "a directed family of ~290 trees for run-time aliasing (nested static key, UpdateContextFromStatic/MakeFilename, a "
-        "later in-place update of the run-time context below the same parent by a user mutator, a second "
-        "UpdateContextFromStatic or MakeFilename; flat, nested, in a Split branch; three values without the key); every "
-        "element's static state and names are read before and again after the run.  thorough: "
-        "all trees with <= 3 leaves over 8 leaf kinds (the 7 of the quick sample and the mutator) and with <= 2 leaves over "
-        "all 10, 100 000 seeded 4-leaf trees over the 10 kinds, 80 000 random trees.  Non-trivial: some element saw a non-empty context or "
-        "derived a formatted name.")
+RULE = ("quick: two directed families (~290 trees for run-time aliasing of static context: nested static key, "
+        "UpdateContextFromStatic/MakeFilename, a later in-place update of the run-time context by a user mutator, a second "
+        "UpdateContextFromStatic or MakeFilename, three values; ~100 trees for FillComputeSeq / FillRequestSeq nodes, tuple "
+        "branches that Split converts into them, branches given as bare elements, and Splits constructed while the caches "
+        "of their branches exist); all trees with <= 2 leaves over 10 leaf kinds (SetContext constant / formatting / "
+        "nested key, StoreContext, UpdateContextFromStatic, MakeFilename, Write, Cache, plain element, run-time mutator), "
+        "depth <= 2, Sequence and Source tops; 6000 seeded trees with 3 leaves over 7 leaf kinds; 4000 seeded random trees "
+        "of depth <= 3 (Sequence / Source / FillComputeSeq / FillRequestSeq / tuple / bare-element branches, 0-3 Split "
+        "branches, 6 keys, 7 formatting fields incl. unresolvable ones, MakeFilename with any legal combination of "
+        "filename/dirname/fileext/prefix/suffix/overwrite, 15 % of the trees with a Cache constructed a second time with "
+        "the cache files present) each with two causality variants and a run-time flow out of 7 (1-3 values; none for "
+        "trees with fill/compute elements); every element's static state and names are read before and after the run.  "
+        "thorough: all trees with <= 3 leaves over the 7 leaf kinds and <= 2 leaves over all 10, 40 000 seeded 4-leaf "
+        "trees over the 10 kinds, 40 000 random trees.  Non-trivial: some element saw a non-empty context or derived a "
+        "formatted name.")
 LEVEL_TEXT = ("Lean 4 theorems about a transcribed model of the multi-pass static-context protocol (bottom-up construction, "
               "_set_context({}) in every constructor, re-propagation by enclosing sequences, skip-while-empty, stale "
               "_static_context, the two LenaKeyError exits) for ALL trees of Sequence/Source/Split of any depth and size: the "
@@ -981,6 +992,23 @@ def anchor_of(node):
     return None
 
 
+def _branch_type(b):
+    a = anchor_of(b) if b["k"] == "seq" else (b["k"] if b["k"] in ("fc", "fr") else None)
+    return a if a in ("fc", "fr") else "other"
+
+
+def normalise(tree):
+    """A Split all of whose branches are of fill/compute (fill/request) type has `fill` and `compute` (`request`)
+    itself, so that a tuple containing it would be taken for a FillComputeSeq with that Split as its element: such
+    Splits get one more, empty, Sequence branch (in place)."""
+    for nd in preorder(tree):
+        if nd["k"] == "split" and nd["c"]:
+            types = set(_branch_type(b) for b in nd["c"])
+            if types in ({"fc"}, {"fr"}):
+                nd["c"].append({"k": "seq", "kind": "Sequence", "c": []})
+    return tree
+
+
 def static_only(tree):
     """True if the tree contains a fill/compute or fill/request element: its run-time behaviour (fill, compute,
     request) is the subject of C03/C05/C16; only its static context is checked here"""
@@ -1144,7 +1172,7 @@ def _flow_for(tree, flow):
 
 def rand_case(rng, depth=3, pformat=0.3, nvariants=2):
     for _ in range(50):
-        tree = rand_top(rng, depth, pformat)
+        tree = normalise(rand_top(rng, depth, pformat))
         if _renders_dict(tree):
             continue
         case = {"tree": tree, "flow": _flow_for(tree, rng.choice(FLOWS))}
@@ -1155,7 +1183,7 @@ def rand_case(rng, depth=3, pformat=0.3, nvariants=2):
         vs = []
         if ps and nvariants:
             for _ in range(nvariants):
-                v = mutate_after(rng, tree, rng.choice(ps), pformat)
+                v = normalise(mutate_after(rng, tree, rng.choice(ps), pformat))
                 if not _renders_dict(v):
                     vs.append(v)
         case["variants"] = vs
@@ -1331,9 +1359,9 @@ def sampled_cases(rng, n, depth, leaves, count):
 def gen_cases(ctx):
     """A generator (cases are produced lazily).  quick: the directed families, every tree with <= 2 leaves over the
     10-leaf alphabet, 6000 seeded draws from the trees with 3 leaves over the 7-leaf alphabet (depth <= 2, Sequence and
-    Source tops), 4000 random trees of depth <= 3 with causality variants.  thorough: all trees with <= 3 leaves over 8
-    leaf kinds (the 7 and the mutator) and with <= 2 leaves over all 10, 60 000 seeded draws from the trees with 4
-    leaves over the 10 kinds, 60 000 random trees."""
+    Source tops), 4000 random trees of depth <= 3 with causality variants.  thorough: all trees with <= 3 leaves over the 7
+    leaf kinds and with <= 2 leaves over all 10, 40 000 seeded draws from the trees with 4 leaves over the 10 kinds,
+    40 000 random trees (the parent process holds cases, results and model replies: about 4 GB)."""
     rng = ctx.rng
     yield from alias_cases()
     yield from seqtype_cases()
@@ -1342,10 +1370,10 @@ def gen_cases(ctx):
         yield from sampled_cases(rng, 3, 2, EX_LEAVES, 6000)
         n_rand = 4000
     else:
-        yield from exhaustive_cases(3, 2, EX_LEAVES + EX_LEAVES_MORE[2:], source=True)
+        yield from exhaustive_cases(3, 2, EX_LEAVES, source=True)
         yield from exhaustive_cases(2, 2, EX_LEAVES + EX_LEAVES_MORE, source=True)
-        yield from sampled_cases(rng, 4, 2, EX_LEAVES + EX_LEAVES_MORE, 60000)
-        n_rand = 60000
+        yield from sampled_cases(rng, 4, 2, EX_LEAVES + EX_LEAVES_MORE, 40000)
+        n_rand = 40000
     for i in range(n_rand):
         pformat = (0.0, 0.3, 0.6)[i % 3]
         yield rand_case(rng, depth=3, pformat=pformat)
